@@ -389,6 +389,80 @@ Proof.
   rewrite dump1_d_std. destruct (dump1 h k v); auto.
 Qed.
 
+(* the same for any clause table that selects the same expression for every key (the order of the
+   elif chain is irrelevant because the key tests are equalities with distinct literals) *)
+Fixpoint clause_lookup (cl : list (string * pexpr)) (k : string) : option pexpr :=
+  match cl with [] => None | (k', p) :: t => if String.eqb k k' then Some p else clause_lookup t k end.
+
+Lemma parse_d_lookup cl k v :
+  parse_d cl k v = match clause_lookup cl k with Some p => peval p v | None => Some VNone end.
+Proof. induction cl as [|[k' p] t IH]; simpl; [reflexivity|]. destruct (String.eqb k k'); auto. Qed.
+
+Lemma clause_lookup_notin cl k : ~ In k (map fst cl) -> clause_lookup cl k = None.
+Proof.
+  induction cl as [|[k' p] t IH]; simpl; intros H; [reflexivity|].
+  destruct (String.eqb k k') eqn:E; [apply String.eqb_eq in E; subst; tauto | apply IH; tauto].
+Qed.
+
+Lemma list_eqb_eq {A} (eqb : A -> A -> bool) : (forall a b, eqb a b = true -> a = b) ->
+  forall l1 l2, list_eqb eqb l1 l2 = true -> l1 = l2.
+Proof.
+  intros H. induction l1 as [|x t IH]; intros [|y u]; simpl; intros E; try discriminate; [reflexivity|].
+  apply andb_prop in E. destruct E as [E1 E2]. f_equal; [now apply H | now apply IH].
+Qed.
+
+Lemma aexpr_eqb_eq a b : aexpr_eqb a b = true -> a = b.
+Proof. destruct a, b; simpl; intros; try discriminate; reflexivity. Qed.
+
+Lemma pexpr_eqb_eq a b : pexpr_eqb a b = true -> a = b.
+Proof.
+  destruct a, b; simpl; intros E; try discriminate; try reflexivity.
+  - f_equal. now apply (list_eqb_eq aexpr_eqb aexpr_eqb_eq).
+  - f_equal. now apply (list_eqb_eq aexpr_eqb aexpr_eqb_eq).
+  - f_equal. now apply Bool.eqb_prop.
+Qed.
+
+Definition popt_eqb (a b : option pexpr) : bool :=
+  match a, b with Some x, Some y => pexpr_eqb x y | None, None => true | _, _ => false end.
+
+Definition clauses_ok (cl : list (string * pexpr)) : bool :=
+  forallb (fun k => popt_eqb (clause_lookup cl k) (clause_lookup (hd_clauses std_descr) k))
+          (map fst cl ++ map fst (hd_clauses std_descr)).
+
+Definition descr_ok (d : hdescr) : bool :=
+  list_eqb String.eqb (hd_history_keys d) HISTORY_KEYS && hd_member_positive d &&
+  String.eqb (hd_filter_key d) BEST && hd_filter_noteq d && hd_filter_flag_positive d &&
+  hd_else_as_given d && hd_create_or_append d && clauses_ok (hd_clauses d).
+
+Lemma clauses_ok_lookup cl : clauses_ok cl = true ->
+  forall k, clause_lookup cl k = clause_lookup (hd_clauses std_descr) k.
+Proof.
+  intros H k. unfold clauses_ok in H. rewrite forallb_forall in H.
+  destruct (in_dec string_dec k (map fst cl ++ map fst (hd_clauses std_descr))) as [I|N].
+  - specialize (H k I). unfold popt_eqb in H.
+    destruct (clause_lookup cl k), (clause_lookup (hd_clauses std_descr) k); try discriminate; [|reflexivity].
+    f_equal. now apply pexpr_eqb_eq.
+  - rewrite !clause_lookup_notin; [reflexivity | |]; intros I; apply N; apply in_or_app; tauto.
+Qed.
+
+Theorem dump_d_ok : forall d, descr_ok d = true -> forall kw h, dump_d d h kw = dump h kw.
+Proof.
+  intros d H. unfold descr_ok in H. repeat (apply andb_prop in H; destruct H as [H ?]).
+  assert (P : forall k v, parse_d (hd_clauses d) k v = parse k v).
+  { intros k v. rewrite <- parse_d_std, !parse_d_lookup. now rewrite (clauses_ok_lookup _ H0). }
+  assert (K : hd_history_keys d = HISTORY_KEYS).
+  { apply (list_eqb_eq String.eqb); [|exact H]. intros a b E. now apply String.eqb_eq. }
+  assert (D1 : forall h k v, dump1_d d h k v = dump1 h k v).
+  { intros h k v. unfold dump1_d, dump1. rewrite P, K.
+    match goal with E : String.eqb (hd_filter_key d) BEST = true |- _ => apply String.eqb_eq in E; rewrite E end.
+    repeat match goal with E : _ = true |- _ => rewrite E; clear E end.
+    destruct (mem k HISTORY_KEYS); cbn [Bool.eqb andb]; [|reflexivity].
+    destruct (negb (String.eqb k BEST)); [|reflexivity].
+    destruct (lookup FLAG h); [|reflexivity]. destruct (truthy v0); reflexivity. }
+  induction kw as [|[k v] t IH]; intros h; simpl; [reflexivity|].
+  rewrite D1. destruct (dump1 h k v); auto.
+Qed.
+
 (* ================================================================== load / save *)
 Definition heq (a b : hist) : Prop := forall k, lookup k a = lookup k b.
 
